@@ -5,6 +5,7 @@ import Ecal.Lemmas.LexerSteps
 import Ecal.Lemmas.LexerInv
 import Ecal.Lemmas.LexTerminates
 import Ecal.Lemmas.LexerList
+import Ecal.Lemmas.LexerGap
 import Ecal.Gen.C18
 /-!
 # C18 — tokens, errors and breakpoints carry the true source position
@@ -20,13 +21,14 @@ Proved, for every input and every token the lexer emits:
 * `token_positions_true_partial` — the reported line is the true line of `Pos`; the reported
   column is the true column of `Pos` unless the classifier of the known finding
   `hash-comment-column` holds at the token;
-* `token_starts_at_first_character` / `token_text_at_pos` — at `Pos` stands a non-blank rune and
-  (words, numbers, comments) the token's text; comment tokens and the error token of an
-  unterminated block comment: the first byte of the comment text, the opener directly before it.
-  NOT proved: the gap clause (only blanks and comments between the end of one token's text and
-  the `Pos` of the next) and the extent of string / error tokens — a lexer starting every word at
-  its second byte would satisfy these two theorems; the driver's independent scan
-  (`expectedPositions`) tests the gap on every case, `C14Lex` gives the extent of literals;
+* `token_starts_at_first_character` / `token_text_at_pos` / `gap_is_blank` /
+  `token_pos_is_first_character` — `Pos` IS the token's first character: at `Pos` stands a
+  non-blank rune and (words, numbers, comments) the token's text, and only a run of blank runes
+  lies between the end of the previous token's lexing and `Pos` (comment tokens and the error token
+  of an unterminated block comment: `Pos` is the first byte of the comment text, the opener directly
+  before it, the blank run ends at the opener). The end of a token's lexing is pinned to
+  `Pos + |Val|` for keywords, symbols, identifiers and comments; for numbers, strings and error
+  tokens only `Pos < end` is stated (string literal extents: `Ecal.Props.C14Lex`);
 * the invariant between tokens (`lexer_pos_invariant_partial`, partial for the same `#` staleness)
   and the loop / scanner lemmas it rests on.
 
@@ -152,7 +154,7 @@ theorem tracked_loops_keep_bookkeeping (ae : Bool) (endTok : Option Nat) (T : Li
     (lexValueLoop ae endTok fuel l r esc a b = some (l', a', b') →
       l'.core = l.core ∧ ∃ p', Pend l' endTok p' ∧ Tr l.inp T p' a' b') ∧
     (blockLoop fuel l r a b = some (l', a', b') →
-      l'.core = l.core ∧ l'.peek 1 = some 47 ∧ ∃ p', Pend l' (some 42) p' ∧ Tr l.inp T p' a' b') :=
+      l'.core = l.core ∧ l'.peek 1 = some 47 ∧ ∃ p', Pend l' (some 42) p' ∧ Tr l.inp T p' a' b' ∧ p ≤ p') :=
   ⟨value_loop ae endTok T fuel l r esc a b p l' a' b' hp htr,
    block_loop T fuel l r a b p l' a' b' hp htr⟩
 
@@ -216,7 +218,7 @@ theorem stale_column_exact (input : List Nat) :
         c.val.getLast? = some 10 ∧ t.col - (t.pos : Int) = c.col - (c.pos : Int) :=
   fun t ht hne => (lex_ok input t ht hne).1.2
 
-/-! ## What stands at Pos (the gap between tokens is tested, not proved) -/
+/-! ## What stands at Pos -/
 
 /-- **token_starts_at_first_character.** Every token other than EOF and comments starts inside
     the input at a rune that is not blank (`blank` = unicode.IsSpace ∨ unicode.IsControl: what
@@ -338,6 +340,76 @@ theorem eof_line_true (input : List Nat) (hne : ∀ t ∈ (lex input).toList, t.
 
 example : (∀ t ∈ (lex witnessSrc).toList, t.id ≠ tERROR) ∧
     ((lex [97, 10, 10]).toList.map fun t => (t.id, t.line)) = [(tIDENTIFIER, 1), (tEOF, 3)] := by decide +kernel
+
+/-! ## The gap clause: Pos is the token's first character -/
+
+/-- **gap_is_blank.** For every token `t` of `lex input` other than EOF, with `pre` the tokens before
+    it in the list: there are a boundary offset `spos` and an offset `e` such that
+    * `t.pos` is `spos` itself — or `spos + 1` for a `#` comment token, `spos + 2` for a block comment
+      token and for the error token of an unterminated block comment (`OffOK`: `Pos` stands behind
+      the opener that starts at `spos`);
+    * at `spos` stands a rune that is NOT blank (inside the input);
+    * `[e, spos)` is a run of blank runes (`BlankRun`: unicode.IsSpace ∨ IsControl, rune after rune);
+    * `e = 0` if `t` is the first token; otherwise `e` lies behind the `Pos` of the previous token `a`
+      and is where the lexing of `a` ended — for keywords, symbols, identifiers and `#` comments
+      exactly `a.pos + |a.val|`, for block comments `a.pos + |a.val| + 2` (`PrevEnd` / `EndOK`: directly
+      behind `a`'s text; for numbers, string and error tokens only `a.pos < e` is stated here —
+      `Ecal.Props.C14Lex` gives the extent of string literals).
+    So nothing but blanks lies between the end of one token's text and the first character of the
+    next token (comments are tokens of the list themselves): together with
+    `token_starts_at_first_character` and `token_text_at_pos`, `Pos` IS the first character of the
+    token — a lexer that started words at their second byte would violate this theorem. -/
+theorem gap_is_blank (input : List Nat) (pre : List Tok) (t : Tok) (post : List Tok)
+    (h : (lex input).toList = pre ++ t :: post) (hne : t.id ≠ tEOF) :
+    ∃ spos e, OffOK t.id t.pos spos ∧ spos < input.toArray.size ∧
+      blank (some (decodeRune input.toArray spos).1) = false ∧ BlankRun input.toArray e spos ∧
+      ((pre = [] ∧ e = 0) ∨
+       ∃ pre' a, pre = pre' ++ [a] ∧ a.pos < e ∧
+         (a.id = tPOSTCOMMENT → e = a.pos + a.val.length) ∧
+         (a.id = tPRECOMMENT → e = a.pos + a.val.length + 2) ∧
+         (7 ≤ a.id → e = a.pos + a.val.length)) := by
+  obtain ⟨body, fin, h1, ⟨_, _, _, b4⟩, h3⟩ := lex_final input
+  rw [h1] at h
+  have hb : ∃ post', body = pre ++ t :: post' := by
+    rcases h3 with ⟨rfl, _⟩ | ⟨eof, rfl, hid, _⟩
+    · exact ⟨post, by simpa using h⟩
+    · rcases snoc_decomp h with ⟨_, _, rfl⟩ | ⟨post', _, hb⟩
+      · exact absurd hid hne
+      · exact ⟨post', hb⟩
+  obtain ⟨post', hb⟩ := hb
+  exact b4 pre t post' hb
+
+/-- **token_pos_is_first_character.** The plain form for tokens that are neither comments nor error
+    tokens (keywords, symbols, identifiers, numbers, strings): the rune at `Pos` is not blank and
+    everything between the end of the previous token's lexing (`e`; offset 0 for the first token;
+    `a.pos + |a.val|` behind a keyword / symbol / identifier) and `Pos` is a run of blank runes. -/
+theorem token_pos_is_first_character (input : List Nat) (pre : List Tok) (t : Tok) (post : List Tok)
+    (h : (lex input).toList = pre ++ t :: post) (h1 : t.id ≠ tEOF) (h2 : t.id ≠ tPOSTCOMMENT)
+    (h3 : t.id ≠ tPRECOMMENT) (h4 : t.id ≠ tERROR) :
+    blank (some (decodeRune input.toArray t.pos).1) = false ∧
+    ∃ e, BlankRun input.toArray e t.pos ∧
+      ((pre = [] ∧ e = 0) ∨ ∃ pre' a, pre = pre' ++ [a] ∧ a.pos < e ∧ (7 ≤ a.id → e = a.pos + a.val.length)) := by
+  obtain ⟨spos, e, hoff, _, hb, hrun, hprev⟩ := gap_is_blank input pre t post h h1
+  have hs : t.pos = spos := by
+    rcases hoff with ⟨hp, _⟩ | ⟨hp, _⟩ | hp
+    · exact absurd hp h2
+    · rcases hp with hp | hp
+      · exact absurd hp h3
+      · exact absurd hp h4
+    · exact hp
+  rw [hs]
+  refine ⟨hb, e, hrun, ?_⟩
+  rcases hprev with hp | ⟨pre', a, q1, q2, _, _, q5⟩
+  · exact Or.inl hp
+  · exact Or.inr ⟨pre', a, q1, q2, q5⟩
+
+/-- non-vacuity: in `a⎵⎵b` (bytes 97 32 32 98) the two blanks between the tokens are a blank run
+    from the end of `a` (offset 1 = 0 + |a|) to the `Pos` of `b` (offset 3); the list has the shape
+    the hypotheses ask for -/
+example : BlankRun #[97, 32, 32, 98] 1 3 ∧
+    ((lex [97, 32, 32, 98]).toList.map fun t => (t.id, t.pos, t.val)) =
+      [(tIDENTIFIER, 0, [97]), (tIDENTIFIER, 3, [98]), (tEOF, 3, [])] :=
+  ⟨.step (by decide) (by decide) (.step (by decide) (by decide) (.refl _)), by decide +kernel⟩
 
 /-! ## Errors, stack traces and break points copy the token's position (regenerated source fact) -/
 
